@@ -77,7 +77,7 @@ def _run_shard(binary, cases, per_case_timeout):
     while i < len(cases):
         import tempfile
         tf = tempfile.TemporaryFile(dir=os.path.join(CACHE, 'tmp'))
-        tf.write(''.join(json.dumps(c) + '\n' for c in cases[i:]).encode())
+        tf.write(''.join(json.dumps({k: v for k, v in c.items() if not k.startswith('_')}) + '\n' for c in cases[i:]).encode())
         tf.seek(0)
         p = subprocess.Popen([binary], stdin=tf, stdout=subprocess.PIPE, stderr=subprocess.DEVNULL,
                              env=ENV_RUN, cwd=CACHE)
